@@ -7,7 +7,7 @@ package main
 // edges between tasks.  It only uses the lock-free subset of reflect.
 //
 //   - semantic mode: value only (no addresses, no capacities); nil and empty
-//     are distinguished; floats by bit pattern; unexported fields included.
+//     are distinguished; floats by bit pattern; unexported fields are NOT read: the harness observes only what a user of the API can.
 //   - physical mode: additionally data pointers, capacities and the contents of
 //     every slice up to its capacity, so that a write into the spare capacity of
 //     a caller's backing array, or a re-slice, is visible.
@@ -23,6 +23,45 @@ import (
 )
 
 var xrHeaderType = reflect.TypeOf(rtcp.XRHeader{})
+
+// exportedMask[T][i] reports whether field i of struct type T is exported.  Built
+// once before the first run (read-only afterwards, so tasks may consult it freely).
+var exportedMask = map[reflect.Type][]bool{}
+
+func collectTypes(t reflect.Type, depth int) {
+	if depth > 12 {
+		return
+	}
+	switch t.Kind() {
+	case reflect.Ptr, reflect.Slice, reflect.Array:
+		collectTypes(t.Elem(), depth+1)
+	case reflect.Struct:
+		if _, ok := exportedMask[t]; ok {
+			return
+		}
+		m := make([]bool, t.NumField())
+		exportedMask[t] = m
+		for i := 0; i < t.NumField(); i++ {
+			f := t.Field(i)
+			m[i] = f.PkgPath == ""
+			collectTypes(f.Type, depth+1)
+		}
+	}
+}
+
+// initTypeMasks walks every type the workload can meet.
+func initTypeMasks() {
+	for k := 0; k < numKinds; k++ {
+		collectTypes(reflect.TypeOf(newOfKind(k)), 0)
+	}
+	for k := 0; k < 8; k++ {
+		collectTypes(reflect.TypeOf(genXRBlock(&rng{s: 1}, k, szOne)), 0)
+	}
+	for _, x := range []interface{}{rtcp.Header{}, rtcp.ReceptionReport{}, rtcp.SourceDescriptionChunk{}, rtcp.SourceDescriptionItem{},
+		rtcp.RunLengthChunk{}, rtcp.StatusVectorChunk{}, rtcp.RecvDelta{}, rtcp.NackPair{}, rtcp.CCFeedbackReportBlock{}} {
+		collectTypes(reflect.TypeOf(x), 0)
+	}
+}
 
 type dumper struct {
 	buf    []byte
@@ -72,8 +111,11 @@ func (d *dumper) val(v reflect.Value, depth int) {
 			d.buf = append(d.buf, 's')
 			d.buf = strconv.AppendInt(d.buf, int64(len(s)), 10)
 		}
+		// hex: the dump stays printable whatever the text contains
 		d.buf = append(d.buf, '"')
-		d.buf = append(d.buf, s...)
+		for i := 0; i < len(s); i++ {
+			d.buf = append(d.buf, hexdigits[s[i]>>4], hexdigits[s[i]&15])
+		}
 		d.buf = append(d.buf, '"')
 	case reflect.Slice:
 		if v.IsNil() {
@@ -120,9 +162,23 @@ func (d *dumper) val(v reflect.Value, depth int) {
 			return
 		}
 		d.buf = append(d.buf, '{')
+		mask := exportedMask[v.Type()]
 		for i := 0; i < v.NumField(); i++ {
 			if i > 0 {
 				d.buf = append(d.buf, ' ')
+			}
+			hidden := false
+			if mask != nil {
+				hidden = !mask[i]
+			} else {
+				hidden = v.Type().Field(i).PkgPath != ""
+			}
+			if hidden {
+				// Unexported field: hidden state.  The harness observes only what a user of the API can
+				// observe; it must not even read hidden state (a correctly synchronised hidden cache is
+				// accessed atomically by the library, and a plain read from here would itself be a race).
+				d.buf = append(d.buf, '_')
+				continue
 			}
 			d.val(v.Field(i), depth+1)
 		}
